@@ -318,6 +318,41 @@ impl LdapResult {
 #[derive(Clone, Debug)]
 pub(crate) struct LdapResultExt(pub LdapResult, pub Exop, pub SaslCreds);
 
+// Check that a protocolOp has the LDAPResult shape which the conversion below relies on.
+pub(crate) fn well_formed_result(t: &lber::structure::StructureTag) -> bool {
+    use lber::structure::{StructureTag, PL};
+
+    fn utf8_primitive(t: Option<&StructureTag>) -> bool {
+        matches!(t, Some(StructureTag { payload: PL::P(ref v), .. }) if std::str::from_utf8(v).is_ok())
+    }
+
+    let comps = match t.payload {
+        PL::C(ref comps) => comps,
+        PL::P(_) => return false,
+    };
+    let mut comps = comps.iter();
+    match comps.next() {
+        Some(StructureTag {
+            class: TagClass::Universal,
+            id,
+            payload: PL::P(_),
+        }) if *id == Types::Enumerated as u64 => (),
+        _ => return false,
+    }
+    if !utf8_primitive(comps.next()) || !utf8_primitive(comps.next()) {
+        return false;
+    }
+    comps.all(|comp| match comp.id {
+        3 => match comp.payload {
+            PL::C(ref uris) => uris.iter().all(|u| utf8_primitive(Some(u))),
+            PL::P(_) => false,
+        },
+        7 | 11 => matches!(comp.payload, PL::P(_)),
+        10 => utf8_primitive(Some(comp)),
+        _ => true,
+    })
+}
+
 impl From<Tag> for LdapResultExt {
     fn from(t: Tag) -> LdapResultExt {
         let t = match t {
